@@ -18,13 +18,17 @@ INFO = {
  'C17a': ('C17', 'JareckiLysyanskayaRVSS::Reconstruct demands t+2 shares', 'n = 2t+1 with exactly t deviating parties and a complained-about opening'),
  'C10a': ('C10', 'TMCG_PublicKey::check tests the STAGE3 round count on stage2_size', 'an otherwise valid, re-signed key whose non-residue proof (stage 3) was cut to fewer rounds than TMCG_KEY_NIZK_STAGE3'),
  'C14a': ('C14', 'RBC r-answer handler no longer overwrites an already stored payload mbar[tag]', 'an equivocating sender: a party that got m\' by r-send but whose quorum agreed on H(m) keeps and delivers m\' after a correct r-answer'),
+ 'C13b': ('C13', 'aiounicast_select::Receive: complete-message test drops the -1 for the newline', 'authenticated link; a read that ends exactly one byte before the end of a MAC tag'),
+ 'C15a': ('C15', 'PedersenVSS::Share: complaint flag reset inside the loop over complaints', 'a cheating dealer with >= 2 complaints (t >= 2) whose bad public answer is not the last one processed'),
+ 'C02b': ('C02', 'TMCG_CreateCardSecret (key-ring variant): XOR accumulator assigned instead of toggled when already 1', 'QR encoding with three or more players'),
+ 'C04b': ('C04', 'TMCG_StackSecret::import bijection loop stops at size-1 (same site as C02a, produced for C04)', 'cheating cut-and-choose prover sends an index vector without n-1 and one duplicate'),
  'C13a': ('C13', 'aiounicast_select::Receive removes the IV using the last read size', 'first read on an encrypted link ends inside the 16-byte IV'),
 }
 for sid, (prop, what, needs) in INFO.items():
     d = os.path.join(V, 'seeded', sid)
     if not os.path.isdir(d): continue
     conf = open(os.path.join(d, 'confirm.log')).read() if os.path.exists(os.path.join(d, 'confirm.log')) else ''
-    chk = open(os.path.join(d, 'check.log')).read() if os.path.exists(os.path.join(d, 'check.log')) else ''
+    chk = open(os.path.join(d, 'check.log'), errors='replace').read() if os.path.exists(os.path.join(d, 'check.log')) else ''
     viol = re.findall(r'harness=(\S+) assertion="([^"]*)"', chk)
     meta = {
         'id': sid, 'property': prop, 'change': what, 'needs_to_manifest': needs,
